@@ -114,9 +114,18 @@ def cplain(v):
     return canon(plain(v))
 
 
+class Raw:
+    """A value to be handed to the library as it is (not wrapped in the field's enum/flag class)."""
+
+    def __init__(self, value):
+        self.value = value
+
+
 def build_value(cs_type, sem, t, v):
     """Instantiate a plain value as library objects through the public constructors (for direct construction)."""
     m = import_repo()
+    if isinstance(v, Raw):
+        return v.value
     t = sem.res(t)
     k = t["k"]
     if k == "st":
